@@ -552,32 +552,46 @@ def rule_hull(chk, w):
         if root is None or root.id not in callers:
             continue
         b = f.body
-        du = None
-        for blk in b.blocks:
-            if blk.cleanup:
-                continue
-            for st in blk.stmts:
-                if not (st.kind == "=" and st.rv.kind == "agg" and st.rv.agg[0] == "adt" and
-                        st.rv.agg[1] == "core::ops::Range" and len(st.rv.ops) == 2):
-                    continue
-                du = du or defuse.DefUse(b)
-                for which, op, want in (("start", st.rv.ops[0], "min"), ("end", st.rv.ops[1], "max")):
-                    o = du.origin(op)
-                    if not (o[0] == "call" and re.search(r"(^core::cmp::|Ord>?::)(min|max)$", o[1]) and len(o[2]) == 2):
-                        continue
-                    txts = [defuse.show(a) for a in o[2]]
-                    if not all(re.search(r"\.%s\)?$" % which, x) for x in txts):
-                        continue
-                    n += 1
-                    got = o[1].rsplit("::", 1)[-1]
-                    name = root.p.rsplit("::", 1)[-1]
-                    if got == want:
-                        chk.ok("HULL", "%s: the query range's %s is the %s of the entries' %ss" % (name, which, want, which),
-                               sample=(n == 1))
+        du = defuse.DefUse(b)
+
+        def bound_class(o, depth=0):
+            """'start' / 'end' when the value is a range's start / end, or a running variable fed only by such values"""
+            txt = defuse.show(o)
+            for which in ("start", "end"):
+                if re.search(r"\.%s\)?$" % which, txt):
+                    return which
+            if o[0] == "call" and re.search(r"(^core::cmp::|Ord>?::)(min|max)$", o[1]) and len(o[2]) == 2 and depth < 3:
+                cs = {bound_class(x, depth + 1) for x in o[2]}
+                return cs.pop() if len(cs) == 1 else None
+            if o[0] == "local" and depth < 3:
+                cs = set()
+                for kind, _bi, x in du.defs.get(o[1], []):
+                    if kind == "stmt" and x.rv.kind == "use":
+                        cs.add(bound_class(du.origin(x.rv.ops[0]), depth + 1))
+                    elif kind == "call" and x.callee.indirect is None and re.search(r"(^core::cmp::|Ord>?::)(min|max)$", x.callee.target_p()):
+                        cs.add(bound_class(du.origin(x.args[1]), depth + 1))      # the non-accumulator operand decides
                     else:
-                        chk.fail("HULL", "%s/%s" % (name, which), "the query range handed to replace_queue_entries combines "
-                                 "the entries' %ss with `%s`: that is their intersection, not their hull, so rows "
-                                 "overlapping an entry are neither loaded nor replaced" % (which, got), st.span.loc())
+                        cs.add(None)
+                return cs.pop() if len(cs) == 1 else None
+            return None
+        for bb, t in b.calls():
+            if b.blocks[bb].cleanup or t.callee.indirect is not None or len(t.args) != 2 or \
+                    not re.search(r"(^core::cmp::|Ord>?::)(min|max)$", t.callee.target_p()):
+                continue
+            cs = {bound_class(du.origin(a)) for a in t.args}
+            if len(cs) != 1 or None in cs:
+                continue
+            which = cs.pop()
+            want = "min" if which == "start" else "max"
+            got = t.callee.target_p().rsplit("::", 1)[-1]
+            n += 1
+            name = root.p.rsplit("::", 1)[-1]
+            if got == want:
+                chk.ok("HULL", "%s: range %ss are combined with %s" % (name, which, want), sample=(n == 1))
+            else:
+                chk.fail("HULL", "%s/%s" % (name, which), "the query range handed to replace_queue_entries combines "
+                         "the entries' %ss with `%s`: that is their intersection, not their hull, so rows "
+                         "overlapping an entry are neither loaded nor replaced" % (which, got), t.span.loc())
     if n < 4:
         chk.fail("HULL", "sites", "expected the hull computations of update_chain_tip and queue_rescans (2 bounds each), "
                  "found %d" % n)
